@@ -11,6 +11,7 @@ Reads one JSON request per line on stdin, answers one JSON line per request on t
           d3 = digest of a third extraction that is handed the buffer object of the first one again, as the library left it
           with "once": 1 every document is extracted exactly once (d2 = d3 = d1): the history of the process is then exactly the
           list of items (used for the fresh-process and the warm-process configurations)
+    {"op": "paths", "file": f, "name": n} -> {"bad": [[label, a, b]...]} (path histories, see _paths) | {"exc": type name}
     {"op": "json", "file": f, "name": n[, "reuse": 1]} -> {"json": [to_json() of every result]} | {"exc": type name}
           reuse: extract once, then answer with the extraction that is handed the same buffer object again
 """
@@ -51,6 +52,47 @@ def _one(data, name, buf=None):
     return d, mut, pos, n, buf
 
 
+def _alt_path(name):
+    """a path in another folder, with another file name and the same extension (the router still picks the same extractor)"""
+    d, b = os.path.split(name)
+    return os.path.join((d or "c06") + "-elsewhere", "moved-" + b)
+
+
+def _paths(data, name):
+    """path histories in ONE process: extract with the path, with path=None, with another path (other folder, other file name,
+    same extension) and with path=None again.  -> list of [label, a, b] of JSON TEXTS that had to be equal and are not:
+    every earlier result still dumps what it dumped right after its own extraction (a later extraction, with whatever path,
+    changes no earlier result), and the two path=None extractions agree (the result is a function of (bytes, path), not of
+    the paths seen before)."""
+    from sharepoint2text.parsing.router import get_extractor
+    from verif.props import c06_obs as O
+    fn = get_extractor(name)
+    held, first = [], []
+    for label, path in (("path", name), ("none-1", None), ("other-path", _alt_path(name)), ("none-2", None)):
+        try:
+            res = list(fn(io.BytesIO(data), path))
+            txt = O.jtext(O.results_json(res))
+        except _Timeout:
+            raise
+        except Exception as e:  # noqa
+            res, txt = None, "exc:" + O.exc_name(e)
+        held.append((label, res))
+        first.append(txt)
+    bad = []
+    for (label, res), txt in zip(held, first):
+        if res is None:
+            continue
+        try:
+            now = O.jtext(O.results_json(res))
+        except Exception as e:  # noqa
+            now = "exc:" + O.exc_name(e)
+        if now != txt:
+            bad.append(["earlier-result-changed:" + label, txt, now])
+    if first[1] != first[3]:
+        bad.append(["none-after-other-path", first[1], first[3]])
+    return bad
+
+
 def main():
     out = os.fdopen(os.dup(1), "w")
     os.dup2(2, 1)
@@ -86,8 +128,11 @@ def main():
                     if not mut1 and not once:
                         d3, mut3, _, _, _ = _one(data, name, buf1)      # the caller hands the SAME buffer in again, as it was left
                         mut2 = mut2 or mut3
+                    dp = None
+                    if req.get("paths") and not once and d1.startswith("ok:"):
+                        dp = [b[0] for b in _paths(data, name)] or None
                     signal.setitimer(signal.ITIMER_PROF, 0)
-                    rec.update({"d1": d1, "d2": d2, "d3": d3, "mut": mut1 or mut2, "pos": pos1, "n": n})
+                    rec.update({"d1": d1, "d2": d2, "d3": d3, "mut": mut1 or mut2, "pos": pos1, "n": n, "dp": dp})
                 except _Timeout:
                     rec.update({"d1": "timeout", "d2": "timeout", "d3": "timeout", "mut": False, "pos": None, "n": -1})
                 results.append(rec)
@@ -103,6 +148,15 @@ def main():
                     except Exception:  # noqa
                         pass
                 ans = {"json": json.loads(O.jtext(O.results_json(O.extract(data, req["name"], buf))))}
+            except Exception as e:  # noqa
+                ans = {"exc": O.exc_name(e)}
+        elif op == "paths":
+            with open(req["file"], "rb") as f:
+                data = f.read()
+            try:
+                bad = _paths(data, req["name"])
+                ans = {"bad": [[lab, (json.loads(a) if not a.startswith("exc:") else {"exc": a}),
+                                (json.loads(b) if not b.startswith("exc:") else {"exc": b})] for lab, a, b in bad]}
             except Exception as e:  # noqa
                 ans = {"exc": O.exc_name(e)}
         elif op == "quit":
